@@ -433,7 +433,7 @@ class Ctx:
         broke = False
         for rel, k, n in files:
             ok, out, err, secs = res[rel]
-            m = re.search(r'=\s*\(\s*(\d+)\s*,\s*\[([^\]]*)\]\s*\)', out.replace('\n', ' '))
+            m = re.search(r'=\s*\(\s*(\d+)(?:%nat)?\s*,\s*\[([^\]]*)\]\s*\)', out.replace('\n', ' '))
             if not ok or not m:
                 broke = True
                 self.broken.append({'kind': 'correspondence', 'name': f'{name}:{rel}',
